@@ -6,6 +6,7 @@ import (
 	"fmt"
 	"os"
 	"regexp"
+	"sort"
 	"strings"
 	"time"
 
@@ -74,22 +75,30 @@ func (e *explorer) newRaceText() string {
 }
 
 func raceKey(report string) string {
-	// first two distinct gmsm functions named in the report (the two conflicting accesses)
+	// canonical key: the innermost gmsm function of each of the two conflicting access stacks, sorted
+	secs := strings.Split(report, "\n\n")
 	var fr []string
-	seen := map[string]bool{}
-	for _, m := range gmsmFrame.FindAllStringSubmatch(report, -1) {
-		f := m[1]
-		if strings.HasPrefix(f, "verifsync") || seen[f] {
+	for _, sec := range secs {
+		if !(strings.Contains(sec, " at 0x") && strings.Contains(sec, "by goroutine")) && !strings.Contains(sec, "by main goroutine") {
 			continue
 		}
-		seen[f] = true
-		fr = append(fr, f)
-		if len(fr) == 1 {
+		for _, m := range gmsmFrame.FindAllStringSubmatch(sec, -1) {
+			if strings.HasPrefix(m[1], "verifsync") {
+				continue
+			}
+			fr = append(fr, m[1])
+			break
+		}
+		if len(fr) == 2 {
 			break
 		}
 	}
 	if len(fr) == 0 {
 		return ""
+	}
+	sort.Strings(fr)
+	if len(fr) == 2 && fr[0] == fr[1] {
+		fr = fr[:1]
 	}
 	return "race@" + strings.Join(fr, "+")
 }
